@@ -237,6 +237,7 @@ class MultiMachine(Machine):
         fitted = False
         stale_results = False
         member_fix_used = False
+        member_set_used = False  # a value assigned on a MEMBER: how it reaches the multi-fit's minimizer is outside the statement ("operations issued on the multi-fit")
 
         def viol(p, oracle, obs, msg, step, **kw):
             if p != prop:
@@ -370,6 +371,7 @@ class MultiMachine(Machine):
                         if a["at"] >= len(sims) or any(nm not in sims[a["at"]].ref.par_names for nm in a["vals"]):
                             continue
                         sims[a["at"]].fit.set_parameter_values(**a["vals"])
+                        member_set_used = True
                     after = "set@%s" % ("multi" if a["at"] == "multi" else "member")
                 elif k == "set_all":
                     if len(a) != len(names):
@@ -520,6 +522,7 @@ class MultiMachine(Machine):
                     nd = sum(len(s.ref.d) for s in sims)
                     if free < 1 or nd < free + 2 or not in_domain():
                         continue
+                    held = {} if member_set_used else {nm: pvals()[names.index(nm)] for nm in sorted(fixed)}
                     try:
                         multi.do_fit()
                     except Exception as e:
@@ -528,6 +531,13 @@ class MultiMachine(Machine):
                     if not np.all(np.isfinite(pvals())) or not in_domain():
                         res.discard = "fit-left-domain"
                         return
+                    for nm, v in held.items():
+                        # a parameter fixed through the multi-fit (or in a member before the multi-fit was built) is not varied by do_fit, whatever was
+                        # added to the multi-fit between the fix and the fit
+                        if pvals()[names.index(nm)] != v:
+                            viol("C11", "fixed-moved", "multi.parameter_values", "parameter %s is fixed at %r; MultiFit.do_fit moved it to %r" % (nm, v, pvals()[names.index(nm)]), step)
+                    if held:
+                        res.probe("fixed_parameters_checked_after_multi_do_fit")
                     fitted = True
                     stale_results = False
                     after = "do_fit@multi"
